@@ -3,5 +3,6 @@ INVARIANT TypeOK
 INVARIANT NoSharedSecret
 INVARIANT NoNonceReuse
 INVARIANT ReconfiguredFresh
+INVARIANT PartsFresh
 INVARIANT GeneratorFresh
 CHECK_DEADLOCK FALSE
